@@ -1534,6 +1534,19 @@ static void do_source_file(const char *filename_in,
    file_mem fm;
    string   filename_tmp;
 
+   // A forced language (-l) applies to every file as given; drop what the
+   // tokenizer's Objective-C probe added while parsing an earlier file
+   static size_t forced_lang_flags = 0;
+
+   if (cpd.lang_forced)
+   {
+      if (forced_lang_flags == 0)
+      {
+         forced_lang_flags = cpd.lang_flags;
+      }
+      cpd.lang_flags = forced_lang_flags;
+   }
+
    // Do some simple language detection based on the filename extension
    if (  !cpd.lang_forced
       || cpd.lang_flags == 0)
